@@ -443,3 +443,99 @@ theorem contains_unique (pd : PD) (hi : Inv pd) (hp : AllProper pd) (key : Bytes
     rw [hd] at this; exact absurd this (by simp)
 
 end NoKV.Region
+
+namespace NoKV.Region
+
+theorem insertById_perm (m : Meta) (l : List Meta) : (insertById m l).Perm (m :: l) := by
+  induction l with
+  | nil => exact List.Perm.refl _
+  | cons x xs ih =>
+    unfold insertById
+    by_cases h : m.id ≤ x.id
+    · rw [if_pos h]
+    · rw [if_neg h]
+      exact (List.Perm.cons x ih).trans (List.Perm.swap m x xs)
+
+theorem sortById_perm (l : List Meta) : (sortById l).Perm l := by
+  induction l with
+  | nil => exact List.Perm.refl _
+  | cons x xs ih =>
+    unfold sortById
+    simp only [List.foldr_cons]
+    exact (insertById_perm x _).trans (List.Perm.cons x ih)
+
+/-- Re-upserting, one by one, regions that already form a consistent catalog together with the
+accumulator accepts every one of them. -/
+theorem foldl_upsert_all (c : PDCfg) (hc : c.OpsGood) (l acc : List Meta)
+    (hI : Inv (acc ++ l)) (hp : c.rejectsInverted = true → AllProper (acc ++ l)) :
+    ∀ x, x ∈ l.foldl (fun a m => (upsert c a m).1) acc ↔ x ∈ acc ++ l := by
+  induction l generalizing acc with
+  | nil => intro x; simp
+  | cons m rest ih =>
+    have hm : m ∈ acc ++ m :: rest := by simp
+    have hidne : ∀ o ∈ acc, o.id ≠ m.id := by
+      intro o ho
+      have hnd := hI.nodup
+      rw [List.pairwise_append] at hnd
+      exact hnd.2.2 o ho m (by simp)
+    -- the upsert of `m` is accepted and leaves `m :: acc`
+    have hups : (upsert c acc m).1 = m :: acc := by
+      unfold upsert
+      have h0 : m.id ≠ 0 := hI.nonzero m hm
+      have h1 : ¬ (c.rejectsInverted = true ∧ inverted m = true) := by
+        rintro ⟨hr, hi⟩
+        have := hp hr m hm
+        unfold inverted at hi
+        rcases this with h | h
+        · simp [h] at hi
+        · simp [Bytes.le, h] at hi
+      have h2 : staleHit c acc m = false := by
+        unfold staleHit
+        rw [List.any_eq_false]
+        intro o ho
+        simp [hidne o ho]
+      have h3 : overlapHit c acc m = false := by
+        unfold overlapHit
+        rw [List.any_eq_false]
+        intro o ho
+        have := hI.disj m hm o (by simp [ho]) (fun e => hidne o ho e.symm)
+        rw [overlap_good c hc]
+        simp [this]
+      rw [if_neg h0, if_neg h1, h2, h3]
+      simp only [Bool.false_eq_true, if_false]
+      congr 1
+      rw [List.filter_eq_self]
+      intro o ho
+      simpa using hidne o ho
+    simp only [List.foldl_cons, hups]
+    have hperm : ((m :: acc) ++ rest).Perm (acc ++ m :: rest) := by
+      simpa using (List.perm_middle (a := m) (l₁ := acc) (l₂ := rest)).symm
+    have hI' : Inv ((m :: acc) ++ rest) := by
+      refine ⟨?_, ?_, ?_, ?_⟩
+      · intro a ha b hb; exact hI.uniq a (hperm.mem_iff.mp ha) b (hperm.mem_iff.mp hb)
+      · intro a ha b hb; exact hI.disj a (hperm.mem_iff.mp ha) b (hperm.mem_iff.mp hb)
+      · intro a ha; exact hI.nonzero a (hperm.mem_iff.mp ha)
+      · exact (hperm.pairwise_iff (fun h => fun e => h e.symm)).mpr hI.nodup
+    have hp' : c.rejectsInverted = true → AllProper ((m :: acc) ++ rest) :=
+      fun hr a ha => hp hr a (hperm.mem_iff.mp ha)
+    intro x
+    rw [ih (m :: acc) hI' hp' x]
+    exact hperm.mem_iff
+
+theorem restart_mem (c : PDCfg) (hc : c.OpsGood) (pd : PD) (hI : Inv pd)
+    (hp : c.rejectsInverted = true → AllProper pd) : ∀ x, x ∈ restart c pd ↔ x ∈ pd := by
+  have hperm := sortById_perm pd
+  have hI' : Inv ([] ++ sortById pd) := by
+    simp only [List.nil_append]
+    refine ⟨?_, ?_, ?_, ?_⟩
+    · intro a ha b hb; exact hI.uniq a (hperm.mem_iff.mp ha) b (hperm.mem_iff.mp hb)
+    · intro a ha b hb; exact hI.disj a (hperm.mem_iff.mp ha) b (hperm.mem_iff.mp hb)
+    · intro a ha; exact hI.nonzero a (hperm.mem_iff.mp ha)
+    · exact (hperm.pairwise_iff (fun h => fun e => h e.symm)).mpr hI.nodup
+  intro x
+  unfold restart
+  rw [foldl_upsert_all c hc (sortById pd) [] hI'
+    (fun hr a ha => hp hr a (hperm.mem_iff.mp (by simpa using ha))) x]
+  simpa using hperm.mem_iff
+
+end NoKV.Region
